@@ -26,6 +26,11 @@ type Plan struct {
 	EOFAt       int  // the stream ends after this many bytes (-1 = at the end of the data)
 	ErrAt       int  // the transfer reaching this byte count fails with ErrInjected (-1 = never)
 	ErrShort    bool // the failing transfer still moves the bytes before ErrAt
+	// ErrTransient: the injected read error is returned exactly once (a
+	// timeout, an interrupted call); later reads report a clean end of stream
+	// although bytes were lost. A consumer that drops the one error it was
+	// given sees a stream that looks complete.
+	ErrTransient bool
 }
 
 // NoFaults is the plan of a perfect device.
@@ -56,7 +61,7 @@ func (r *Reader) Read(p []byte) (int, error) {
 	r.Calls++
 	if r.ended {
 		r.AfterEnd++
-		if r.Plan.ErrAt >= 0 && r.Delivered >= r.Plan.ErrAt {
+		if r.Plan.ErrAt >= 0 && r.Delivered >= r.Plan.ErrAt && !r.Plan.ErrTransient {
 			return 0, ErrInjected
 		}
 		return 0, io.EOF
